@@ -9,6 +9,7 @@ package operationparser
 import (
 	"encoding/json"
 	"errors"
+	"fmt"
 	"strings"
 
 	"github.com/trustbloc/sidetree-go/pkg/api/operation"
@@ -76,6 +77,12 @@ func parseInitialState(initialState string) (*model.CreateRequest, error) {
 
 	if encoder.EncodeToString(expected) != initialState {
 		return nil, errors.New("initial state is not valid")
+	}
+
+	// the type member is optional in an initial state, but it is part of the text that was compared:
+	// any other value would give the same document a second DID
+	if createRequest.Operation != "" && createRequest.Operation != operation.TypeCreate {
+		return nil, fmt.Errorf("initial state: operation type [%s] not supported", createRequest.Operation)
 	}
 
 	createRequest.Operation = operation.TypeCreate
